@@ -19,7 +19,7 @@ PROP = dict(
                   "bank keeper as a ledger over the named accounts", "ESM branch of AuctionIterator and limit-order auto bids are not driven",
                   "lend-initiated close only as the transfer of TargetDebt to the pool module (not driven by the harness)",
                   "generation 1 (x/auction): price path only (Model/DutchV1.v, same arithmetic as generation 2), not driven by the harness; its bid path and close are not modelled",
-                  "numeric rounding bound of GetAmountOfOtherToken against the exact rational: evaluated by holds_C10_bid on every observed bid, not proved"],
+                  "c10_bid_price / c10_conv_bounds assume asset Decimals <= 10^18 and prices of at least 10^-18 uusd per smallest unit (Decimals <= price as a Dec integer)"],
         assumptions=["block times are whole seconds and non-decreasing", "oracle prices below 2^63", "asset Decimals and prices positive"],
     )
 
